@@ -187,7 +187,7 @@ class Bus (objects.DBusObject):
         for rule_id in proto.matchRules:
             self.router.delMatch(rule_id)
 
-        for busName in proto.busNames.keys():
+        for busName in list(proto.busNames.keys()):
             self.dbus_ReleaseName(busName, proto.uniqueName)
 
         if proto.uniqueName:
@@ -443,9 +443,15 @@ class Bus (objects.DBusObject):
         owner = queue[0]
 
         if caller is not owner:
+            if caller in queue:
+                # give up the place in the queue
+                queue.remove(caller)
+                caller.busNames.pop(name, None)
+                return client.NAME_RELEASED
             return client.NAME_NOT_OWNER
 
         del queue[0]
+        caller.busNames.pop(name, None)
 
         if caller.isConnected:
             self.sendSignal(caller, 'NameLost', 's', name)
